@@ -11,6 +11,9 @@ outcome is known by construction:
 CLASSES = """class QB { public qubit bq; public qubit[2] br; public constructor() -> QB = default; }
 class QD extends QB { public qubit dq; public constructor() -> QD = default; }
 class QE extends QD { public qubit[2] er; public int tag = 3; public constructor() -> QE = default; }
+class QT0 { @tracked public qubit tq; public constructor() -> QT0 = default; public destructor() -> void { bit b = measure tq; echo(b); } }
+class QT1 { @tracked public qubit tq; public constructor() -> QT1 = default; public destructor() -> void { x(tq); bit b = measure tq; echo(b); } }
+class QT2 { @tracked public qubit tq; public constructor() -> QT2 = default; public destructor() -> void { reset tq; x(tq); bit b = measure tq; echo(b); } }
 """
 FIELDS = {"QB": ["bq", "br[0]", "br[1]"], "QD": ["bq", "br[0]", "br[1]", "dq"], "QE": ["bq", "br[0]", "br[1]", "dq", "er[0]", "er[1]"]}
 
@@ -51,6 +54,27 @@ class QObjProgram:
                 L.append("bit %s = measure %s; echo(%s);" % (b, a, b))
                 self.ent_bits.append(one)
                 self.kinds.append("ent")
+            elif ph < 0.68 and getattr(self, "qt_left", None) is None or (ph < 0.68 and self.qt_left):
+                # an object whose destructor performs the last measurement of its tracked field: the record must be that one
+                if getattr(self, "qt_left", None) is None:
+                    self.qt_left = ["QT0", "QT1", "QT2"]
+                    r.shuffle(self.qt_left)
+                c = self.qt_left.pop()
+                o = nm("t")
+                flip = r.random() < 0.5
+                pre = r.choice(["", "measure %s.tq;" % o]) if c != "QT2" else r.choice(["", "measure %s.tq;" % o, "h(%s.tq); measure %s.tq;" % (o, o)])
+                if c == "QT2":
+                    bit = 1
+                elif "measure" in pre:
+                    bit = None          # measuring twice without reset is refused: leave that to C06; do not generate it
+                    pre = ""
+                if c != "QT2":
+                    bit = (1 if flip else 0) ^ (1 if c == "QT1" else 0)
+                end = r.choice(["destroy %s;" % o, ""])
+                L.append("{ %s %s = new %s(); %s%s %s }" % (c, o, c, ("x(%s.tq); " % o) if (flip and c != "QT2") else "", pre, end))
+                self.probe_bits.append(bit)
+                self.kinds.append("probe")
+                self.tracked["%s.tq" % c] = str(bit)
             elif ph < 0.8:
                 # probe: fresh local qubits, optionally tracked
                 k = r.randrange(1, 4)
